@@ -341,6 +341,28 @@ fn make_case_once(seed: u64, run: u64, r: &mut Rng) -> Option<Case> {
         let lc = indent.len() + j.len() + 1;
         spec.col2 = Some((lc, lc));
         spec.target = Some(at);
+    } else if r.chance(45) && lines.iter().take(start_line).any(|l| data_label_of(l).is_some()) {
+        // the same DATA label defined twice, the second time on a line of its own above its
+        // directive: either definition may be cited - the label's line, not the directive's
+        let cands: Vec<usize> = (0..start_line.min(lines.len())).filter(|i| data_label_of(&lines[*i]).is_some()).collect();
+        let i = *r.pick(&cands);
+        let name = data_label_of(&lines[i]).unwrap();
+        let second_first = r.chance(60);
+        let indent = " ".repeat(r.urange(1, 6));
+        let dir = *r.pick(&["dw 3", "db 7", "DB [4]", "dw [2, 2]", "db \"xy\""]);
+        if second_first {
+            // the lone label in front of the existing definition
+            lines.insert(i, format!("{}{}", indent, dir));
+            lines.insert(i, format!("{}:", name));
+            spec.lines = vec![i + 1, i + 3];
+            spec.target = Some(i);
+        } else {
+            lines.insert(i + 1, format!("{}{}", indent, dir));
+            lines.insert(i + 1, format!("{}:", name));
+            spec.lines = vec![i + 1, i + 2];
+            spec.target = Some(i + 1);
+        }
+        spec.kind = "duplicate_label".to_owned();
     } else {
         // the same code label defined twice: either definition may be cited
         let at = r.urange(start_line + 1, lines.len());
@@ -361,6 +383,22 @@ fn make_case_once(seed: u64, run: u64, r: &mut Rng) -> Option<Case> {
     c.faults = vec![format!("storage_{}", spec.kind)];
     c.diag = Some(spec);
     Some(c)
+}
+
+/// the name a line defines as a data label (`name: db ...` / `name: dw ...`), if it does
+fn data_label_of(line: &str) -> Option<String> {
+    let t = line.trim_start();
+    let colon = t.find(':')?;
+    let name = &t[..colon];
+    if name.is_empty() || !name.chars().all(|c| c == '_' || c.is_ascii_alphanumeric()) || name.chars().next()?.is_ascii_digit() {
+        return None;
+    }
+    let rest = t[colon + 1..].trim_start().to_ascii_lowercase();
+    if rest.starts_with("db ") || rest.starts_with("dw ") {
+        Some(name.to_owned())
+    } else {
+        None
+    }
 }
 
 /// (line, column, text) cited by a diagnostic record, if it is one
